@@ -1,4 +1,4 @@
-import AdeptModel.RecBuf
+import AdeptModel.RecBufSites
 import Driver.Common
 /-! family `recbuf`: one line = one event stream.
     `run <len> <pad> <events…>`  → trajectory of the buffers from capacity `len` with `pad` operations already recorded
@@ -24,6 +24,10 @@ def parseEv (t : String) : Option Ev :=
 
 def parseEvs (ts : List String) : Option (List Ev) := ts.mapM parseEv
 
+def showEv : Ev → String
+  | .check k => s!"c{k}" | .push => "p" | .pushIdx a b => s!"i{a}x{b}" | .lhs => "l"
+  | .lhsRange n => s!"r{n}" | .preOps n => s!"o{n}" | .preSt n => s!"s{n}"
+
 def showB (b : B) : String := s!"{b.nOps}/{b.allocOps} {b.nSt}/{b.allocSt}"
 
 def step (_ : Unit) (ws : List String) : Unit × String :=
@@ -35,6 +39,32 @@ def step (_ : Unit) (ws : List String) : Unit × String :=
       let r := run b0 es
       ((), s!"{showB b0} -> {showB r.1} fault={r.2}")
     | _, _, _ => ((), "bad-op")
+  | "runfrom" :: a :: b :: c :: d :: evs =>
+    match a.toNat?, b.toNat?, c.toNat?, d.toNat?, parseEvs evs with
+    | some a, some b, some c, some d, some es =>
+      let r := run ⟨a, b, c, d⟩ es
+      ((), s!"{showB r.1} fault={r.2}")
+    | _, _, _, _, _ => ((), "bad-op")
+  | ["site", kind, x, y] =>
+    match x.toNat?, y.toNat? with
+    | some x, some y =>
+      let es : Option (List Ev) :=
+        if kind == "scalarCtor" then some (siteActiveCtor x)
+        else if kind == "scalarAssign" then some (siteActiveAssign x)
+        else if kind == "refAssign" then some (siteActiveRefAssign x)
+        else if kind == "copy1" then some siteActiveCopy1
+        else if kind == "copy2" then some siteActiveCopy2
+        else if kind == "stackAddDep" then some (siteStackAddDep x)
+        else if kind == "stackAppendDep" then some (siteStackAppendDep x)
+        else if kind == "arrayAssign" then some (siteArrayAssignArray x y)
+        else if kind == "fixedAssign" then some (siteArrayAssignFixed x y)
+        else if kind == "arrayFromScalar" then some (siteArrayFromScalarArray x)
+        else if kind == "fixedFromScalar" then some (siteArrayFromScalarFixed x)
+        else none
+      match es with
+      | some es => ((), String.intercalate " " (es.map showEv))
+      | none => ((), "bad-op")
+    | _, _ => ((), "bad-op")
   | "judge" :: evs =>
     match parseEvs evs with
     | some es =>
